@@ -164,6 +164,15 @@ T = {
  "C13-8": ("C13", "011957e", "snapshot of a log with a fork (two concurrent writers), loaded by a fresh instance", ["C13"], "VIOLATION (native replay) by VerifC13Snapshot"),
  "C17-7": ("C17", "011957e", "two goroutines calling AddOperation with unbuffered progress channels read in a fixed order", ["C17"], "VIOLATION (deadlock) by VerifC17Callbacks"),
  "C20-9": ("C20", "011957e", "a remote peer subscribes, unsubscribes and subscribes again under one live pubsubraw watcher", ["C20"], "VIOLATION (interpreter-only) by VerifC20RawPeers"),
+ # round 16 (base 011957e)
+ "C08-8": ("C08", "011957e", "partial Load, then older history merged under unchanged heads, then Get / List", ["C08", "C01"], "VIOLATION (native replay) by VerifC08Window / VerifC01Log"),
+ "C09-9": ("C09", "011957e", "database A announced while it has a peer, then a peer joins the topic of database B of the same instance", ["C09"], "VIOLATION (native replay) by VerifC09LateJoin"),
+ "C10-8": ("C10", "011957e", "remote entries merged, then a batch with a log the join refuses, then close, reopen, Load", ["C10"], "VIOLATION (native replay) by VerifC10Before"),
+ "C12-9": ("C12", "011957e", "one topic message with more than 4 heads of which one fails its hash check", ["C12"], "VIOLATION (deadlock) by VerifC12RepeatedHeads (with-tampered-heads)"),
+ "C14-9": ("C14", "011957e", "an address written with a trailing slash passed to Open with Create:true (Log / KeyValue / Docs)", ["C14"], "VIOLATION (native replay) by VerifC14Reopen (trailing-slash-spelling)"),
+ "C15-8": ("C15", "011957e", "key-value or document store, several cached heads, positive limit that trims entries fetched for the first head", ["C15"], "VIOLATION (native replay) by VerifC15View"),
+ "C19-8": ("C19", "011957e", "LoadFromSnapshot of an older snapshot on an open store that is ahead of it", ["C19"], "VIOLATION (native replay) by VerifC19History"),
+ "C20-10": ("C20", "011957e", "Close, then Connect, then Send or Close on the same pairwise channel object", ["C20"], "VIOLATION (deadlock) by VerifC20AfterClose"),
 }
 for seed, (prop, base, needs, by, note) in T.items():
     d = os.path.join(V, "seeded", seed)
